@@ -629,6 +629,8 @@ def _c17_case(acc, case):
             if exdev and label in ("rename", "replace"):
                 raise OSError(18, "Invalid cross-device link (injected)")
             if counter["n"] == target:
+                if kind == "exit":
+                    os._exit(70)            # the process really dies here: no unwinding, no flush of buffered writers
                 if kind == "die":
                     raise Fault(label)
                 raise OSError(28, f"injected fault at {label}")
@@ -644,6 +646,11 @@ def _c17_case(acc, case):
                 counter["n"] += 1
                 log.append("write")
                 if counter["n"] == target:
+                    if kind == "exit":
+                        os._exit(70)
+                    if kind == "exit-after":
+                        self._f.write(b)    # accepted by the buffered writer, never flushed
+                        os._exit(70)
                     if kind == "short":
                         self._f.write(b[:max(0, len(b) // 2)])
                         self._f.flush()
@@ -676,6 +683,13 @@ def _c17_case(acc, case):
 
         def wrap(nm):
             def f(*a, **k):
+                if kind == "exit-after":
+                    counter["n"] += 1
+                    log.append(nm)
+                    r = real[nm](*a, **k)
+                    if counter["n"] == target:
+                        os._exit(70)        # the process dies right after this operation returned
+                    return r
                 hit(nm)
                 return real[nm](*a, **k)
             return f
@@ -686,6 +700,8 @@ def _c17_case(acc, case):
             counter["n"] += 1
             log.append("os.write")
             if counter["n"] == target:
+                if kind == "exit":
+                    os._exit(70)
                 if kind == "short":
                     return real["write"](fd, bytes(data)[:max(0, len(data) // 2)])      # short write, no exception
                 if kind == "die":
@@ -703,19 +719,41 @@ def _c17_case(acc, case):
                    (_tempfile, "mkstemp", wrap("mkstemp")), (_shutil, "copymode", wrap("copymode"))]
         saved = [(o, n, getattr(o, n)) for o, n, _ in patches]
         outcome = "completed"
-        try:
-            for o, n, f in patches:
-                setattr(o, n, f)
+        if kind in ("exit", "exit-after"):
+            # real process death: the edit runs in a forked child that calls os._exit at the chosen operation
+            sys.stdout.flush()
+            sys.stderr.flush()
+            pid = os.fork()
+            if pid == 0:
+                code = 0
+                try:
+                    for o, n, f in patches:
+                        setattr(o, n, f)
+                    with quiet():
+                        editmod.edit_torrent(mf, dict(case["req"]))
+                except BaseException:      # noqa: BLE001
+                    code = 1
+                finally:
+                    os._exit(code)
+            _, st = os.waitpid(pid, 0)
+            ec = os.waitstatus_to_exitcode(st)
+            outcome = {0: "completed", 70: "died"}.get(ec, "raised (in child)")
+            counter["n"] = target
+            log.append("exit")
+        else:
             try:
-                with quiet():
-                    editmod.edit_torrent(mf, dict(case["req"]))
-            except Fault:
-                outcome = "died"
-            except BaseException as e:      # noqa: BLE001
-                outcome = f"raised {type(e).__name__}"
-        finally:
-            for o, n, f in saved:
-                setattr(o, n, f)
+                for o, n, f in patches:
+                    setattr(o, n, f)
+                try:
+                    with quiet():
+                        editmod.edit_torrent(mf, dict(case["req"]))
+                except Fault:
+                    outcome = "died"
+                except BaseException as e:      # noqa: BLE001
+                    outcome = f"raised {type(e).__name__}"
+            finally:
+                for o, n, f in saved:
+                    setattr(o, n, f)
         nops = counter["n"]
         if not os.path.isfile(mf):
             acc.fail(f"C17:{kind}:metafile-missing", case, f"{outcome} at op {target} ({log[-1] if log else '-'}); metafile path is gone",
@@ -744,7 +782,8 @@ def h_c17(tier, seed, hints):
     acc = Acc("C17", "fault injection into edit_torrent: OSError / short write / process death at the n-th file-system operation "
               "(open-for-write, write, remove, replace, rename, mkstemp, copymode), n = 1..(number of operations), and un-encodable "
               "values; afterwards the metafile path must hold the complete old or the complete edited metafile",
-              "3 versions x 4 requests x every operation index x {oserror, short, die}, also with rename/replace failing EXDEV "
+              "3 versions x 4 requests x every operation index x {oserror, short, die (exception), exit (os._exit in a forked child: "
+              "nothing is unwound or flushed; before and right after the operation)}, also with rename/replace failing EXDEV "
               "(cross-device) so that fall-back copy paths are exercised")
     reqs = [{"comment": "new comment"}, {"announce": ["http://n/1", "http://n/2"], "private": True},
             {"comment": "", "announce": ""}, {"url-list": "http://w/1 http://w/2", "source": "S"}]
@@ -755,7 +794,8 @@ def h_c17(tier, seed, hints):
             acc.case(("nofault", version, ri))
             nx = _c17_case(acc, {"prop": "C17", "version": version, "req": req, "at": 10 ** 6, "fault": "exdev+none"}) or 0
             for at in range(1, max(n, nx) + 1):
-                for kind in ("oserror", "short", "die") + (("exdev+oserror", "exdev+short", "exdev+die") if at <= nx else ()):
+                for kind in ("oserror", "short", "die", "exit", "exit-after") + (
+                        ("exdev+oserror", "exdev+short", "exdev+die", "exdev+exit", "exdev+exit-after") if at <= nx else ()):
                     case = {"prop": "C17", "version": version, "req": req, "at": at, "fault": kind}
                     _c17_case(acc, case)
                     acc.case((version, ri, at, kind), case if version == 1 and ri == 0 else None)
